@@ -8,12 +8,21 @@ open Pico.Compress Pico.P8File
 
 def codeAreaLen : Nat := 0x8000 - 0x4300
 
-/-- `get_bytes_from_code(code)` (p8png.py:141-170) -/
-def getBytesFromCode (code : Bytes) : Except Err Bytes :=
-  let comp := compress code
-  if comp.length + 8 < code.length then                      -- smaller even with the 8-byte header (repo fix 762f112)
+/-- the uncompressed form can represent the code: NUL-terminated text that must not read as the compressed header -/
+def rawOk (code : Bytes) : Bool := !code.contains 0 && code != [0x3a, 0x63, 0x3a]
+
+/-- the storage form `get_bytes_from_code` chooses: a version 0 cart is never compressed (its readers take the code area for
+text); otherwise compressed when that is smaller counting the 8-byte header (repo fix 762f112) or when the uncompressed
+form cannot represent the code (repo fix 14495cd) -/
+def useCompressed (code : Bytes) (version : Nat) : Bool :=
+  version != 0 && (decide ((compress code).length + 8 < code.length) || !rawOk code)
+
+/-- `get_bytes_from_code(code, version)` (p8png.py:141-185) -/
+def getBytesFromCode (code : Bytes) (version : Nat) : Except Err Bytes :=
+  if version = 0 ∧ code.contains 0 then .error .value else           -- version 0 text cannot hold a NUL: refused (repo fix 91993e3)
+  if useCompressed code version then
     if code.length / 256 > 255 then .error .value else       -- bytes([len >> 8, ...])
-    let cb := header code ++ comp
+    let cb := header code ++ compress code
     if cb.length > codeAreaLen then .error .tooLarge
     else .ok (cb ++ List.replicate (codeAreaLen - cb.length) 0)
   else
@@ -64,7 +73,7 @@ def decRows (rows : List (List UInt8)) : Bytes := rows.flatMap decRow
 
 /-- `P8PNGFormatter.to_file` down to the pixel rows handed to `png.Writer` -/
 def toPixels (label : List (List UInt8)) (c : Cart) : Except Err (List (List UInt8)) := do
-  let cb ← getBytesFromCode c.code
+  let cb ← getBytesFromCode c.code c.version
   if c.version > 255 then .error .value else
   pure (encRows label (picodata c cb))
 
